@@ -49,7 +49,8 @@ TInit == i \in 1..Len(Recs)
 TNext == UNCHANGED i
 
 \* conformance: compare call by call; the reason the model attaches to a pod delete is not observable
-NormCall(c) == <<c[1], c[2], c[3], IF c[1] = "delete" THEN "" ELSE c[4], c[5], c[6], IF c[1] = "create" /\ c[2] = "pods" THEN <<c[7][1]>> ELSE c[7]>>
+NormCall(c) == <<c[1], c[2], c[3], IF c[1] = "delete" THEN "" ELSE c[4], c[5], c[6], IF c[1] = "create" /\ c[2] = "pods" THEN <<c[7][1]>>
+                                                                        ELSE IF c[2] = "statefulsets/status" THEN <<c[7][1], c[7][2]>> ELSE c[7]>>
 Norm(s) == [k \in 1..Len(s) |-> NormCall(s[k])]
 \* A process death while pods are being claimed: the pods are visited in cache order, which is unspecified, so WHICH
 \* patches went out before the death is not determined; they must be patches the failure-free reconcile issues.
@@ -66,6 +67,7 @@ P_C04 == C04(Sn, Calls)
 P_C05 == C05(Sn, Calls)
 P_C06 == C06(Sn, Calls)
 P_C07 == C07(Sn, Calls)
+P_C08 == C08(Sn, Calls, Rslt)
 P_C09 == C09(Sn, Calls, Rslt)
 P_C10 == C10(Sn, Calls, Rslt)
 P_C11 == C11(Sn, Calls)
